@@ -42,7 +42,10 @@ var httpc = &http.Client{Timeout: 60 * time.Second}
 
 func logf(f string, a ...any) { fmt.Fprintf(os.Stderr, "c08: "+f+"\n", a...) }
 
-func startServer(bin, tmpl, work string) (*exec.Cmd, error) {
+func startServer(bin, tmpl, work string, ptnum int) (*exec.Cmd, error) {
+	if err := os.MkdirAll(work, 0o755); err != nil {
+		return nil, err
+	}
 	b, err := os.ReadFile(tmpl)
 	if err != nil {
 		return nil, err
@@ -54,6 +57,9 @@ func startServer(bin, tmpl, work string) (*exec.Cmd, error) {
 		"8400": portHTTP + 10, "8401": portHTTP + 11, "8305": portHTTP + 20}
 	for k, v := range rep {
 		s = strings.ReplaceAll(s, "127.0.0.1:"+k, fmt.Sprintf("127.0.0.1:%d", v))
+	}
+	if ptnum > 1 {
+		s = strings.Replace(s, "[meta]\n", fmt.Sprintf("[meta]\n  ptnum-pernode = %d\n", ptnum), 1)
 	}
 	s = strings.ReplaceAll(s, "flight-enabled = true", "flight-enabled = false")
 	s = strings.ReplaceAll(s, "store-enabled = true", "store-enabled = false")
@@ -115,7 +121,8 @@ type Config struct {
 	Inner    int    `json:"inner"`   // inner_chunk_size (0 = default 1024)
 	Chunked  int    `json:"chunked"` // chunk_size with chunked=true (0 = not chunked)
 	Parallel int    `json:"parallel"`
-	Phase    string `json:"phase"` // mem | flushed | compacted
+	Phase    string `json:"phase"`        // mem | flushed | compacted
+	Pt       int    `json:"pt,omitempty"` // ptnum-pernode of the server (0 = default 1)
 	Desc     bool   `json:"desc"`
 }
 
@@ -839,7 +846,7 @@ func main() {
 		works = append(works, w)
 	}
 
-	cmd, err := startServer(bin, tmpl, workDir)
+	cmd, err := startServer(bin, tmpl, workDir, 1)
 	if err != nil {
 		logf("start server: %v", err)
 		os.Exit(3)
@@ -884,13 +891,17 @@ func main() {
 	}
 	// phase "mem": two flushed batches (out of order) + one batch in the memtable
 	results := map[string][]*Case{}
+	pt := 0
 	runPhase := func(phase string, parallels []int) {
 		for pi, p := range parallels {
 			if err := ctrl(fmt.Sprintf("mod=chunk_reader_parallel&limit=%d", p)); err != nil {
 				fail("ctrl: %v", err)
 			}
 			for _, w := range works {
-				cfgs := configsFor(phase, p, tier, w.inner, pi > 0 && tier == "quick")
+				cfgs := configsFor(phase, p, tier, w.inner, (pi > 0 && tier == "quick") || pt > 0)
+				for i := range cfgs {
+					cfgs[i].Pt = pt
+				}
 				for qi, q := range w.queries {
 					c := runCase(w.ds, q, cfgs, w.source)
 					key := fmt.Sprintf("%s/%d", w.ds.Name, qi)
@@ -923,6 +934,42 @@ func main() {
 			}
 		}
 		runPhase("compacted", []int{0, 8})
+	}
+	// second server profile: the same node with three partitions (ptnum-pernode = 3): every database is spread over
+	// three partitions, queries fan out over them; reduced configuration matrix
+	if os.Getenv("C08_NOPT") == "" {
+		_ = syscall.Kill(-cmd.Process.Pid, syscall.SIGKILL)
+		_, _ = cmd.Process.Wait()
+		time.Sleep(300 * time.Millisecond)
+		cmd, err = startServer(bin, tmpl, filepath.Join(workDir, "pt3"), 3)
+		if err != nil {
+			logf("start server (ptnum-pernode=3): %v", err)
+			os.Exit(3)
+		}
+		pt = 3
+		for _, m := range []string{"compen", "merge"} {
+			if err := ctrl("mod=" + m + "&allshards=false"); err != nil {
+				fail("ctrl %s: %v", m, err)
+			}
+		}
+		if err := createAndLoad(works); err != nil {
+			fail("load (pt3): %v", err)
+		}
+		for _, w := range works {
+			if err := waitVisible(w.ds); err != nil {
+				fail("pt3: %v", err)
+			}
+		}
+		runPhase("mem", []int{1})
+		if err := ctrl("mod=flush"); err != nil {
+			fail("flush: %v", err)
+		}
+		for _, w := range works {
+			if err := waitVisible(w.ds); err != nil {
+				fail("pt3 after flush: %v", err)
+			}
+		}
+		runPhase("flushed", []int{0})
 	}
 	if os.Getenv("C08_HOLD") == "after" {
 		_ = os.WriteFile(filepath.Join(workDir, "hold"), nil, 0o644)
